@@ -125,6 +125,8 @@ class Seaweed:
 
         # percentage gain per month
         sorted_monthly_percents = 100 * (((sorted_daily_percents / 100) + 1) ** 30)
+        # one growth factor per simulated month (the growth table always covers 120 months)
+        sorted_monthly_percents = sorted_monthly_percents[: constants_for_params["NMONTHS"]]
         self.growth_rates_monthly = sorted_monthly_percents
 
         return sorted_monthly_percents
